@@ -95,10 +95,25 @@ def main(run):
                         old_tr = tr
                         tr = copy.deepcopy(tr) if i == k - 1 else pickle.loads(pickle.dumps(tr))
                         old_tr.update(1e9)
+                        tr_h = tr
+                    if rep == 1 and i in (1, k, 2 * k + 2):
+                        # HISTORY: a number the window cannot hold is rejected (the update raises), the caller catches the error and
+                        # carries on: the window still holds the last min(n, k) ACCEPTED values.  (An implementation that accepts
+                        # the value instead is not judged on it: the stream is abandoned.)
+                        try:
+                            tr.update(rnd.choice([10 ** 400, -10 ** 400]))      # (a Python int, too large for any float)
+                            break
+                        except Exception:
+                            run.count("rejected-update-histories")
+                    # fluent style on some streams: the caller chains on what update() returned and reads the tracker it created
+                    if i == 0 or not (rep == 0 and k % 2 == 0):
+                        tr_h = tr
                     if (i + rep) % 3 == 1:
-                        tr.update(value_i=v)        # the documented parameter name, passed by keyword
+                        tr_r = tr_h.update(value_i=v)        # the documented parameter name, passed by keyword
                     else:
-                        tr.update(v)
+                        tr_r = tr_h.update(v)
+                    if rep == 0 and k % 2 == 0 and tr_r is not None:
+                        tr_h = tr_r
                     m = i + 1
                     if m != n and ((sched == "sparse" and rnd.random() > 0.15) or (sched == "bursts" and (m // (k + 1)) % 3 != 0)):
                         continue
@@ -106,7 +121,13 @@ def main(run):
                     mean = sum(win) / len(win)
                     var = sum((x - mean) ** 2 for x in win) / len(win)
                     scale = max(1.0, max(abs(float(x)) for x in win))
-                    obs = {"get": tr.get(), "call": tr(), "mean": tr.mean, "var": tr.var, "std": tr.std}
+                    try:
+                        obs = {"get": tr.get(), "call": tr(), "mean": tr.mean, "var": tr.var, "std": tr.std}
+                    except Exception as ex:
+                        failed = True
+                        run.violation("window-mean", f"k={k} {kind} after {m} updates: reading the statistics raised {type(ex).__name__}: {ex}",
+                                      {"k": k, "values": vals[:m], "observable": "read"})
+                        break
                     exp = {"get": float(mean), "call": float(mean), "mean": float(mean), "var": float(var),
                            "std": math.sqrt(float(var))}
                     tol = {"get": 1e-12 * scale, "call": 1e-12 * scale, "mean": 1e-12 * scale,
